@@ -42,6 +42,15 @@ PROPS = {
                  "ContextAware.Subscribe/AcceptsMessage are exercised through the real embedded type"],
         assumptions=["error handlers are not part of the processing tree for message routing (the walk does not visit them); disabled nodes are not in the tree"],
     ),
+    "C14": dict(
+        components=[("essink", 90, 2500)],
+        parallel=12,
+        shrink=False,
+        trusted=["olivere/elastic BulkService replaced by a scripted one behind the node's bulkService interface (item order = request order; Errors = some item failed; "
+                 "a non-2xx item always carries an error object)", "wall-clock behaviour (idle timer, 5 s back-off, per-request deadline) is measured on the real code with coarse margins, not modelled"],
+        assumptions=["per-document verdicts are a deterministic function of (document, its attempt), so final answers do not depend on how the timer groups documents into batches",
+                     "whole-request failures cost a hard-coded 5 s back-off each: one directed scenario in the thorough tier only; the deadline scenario (F7) is in both tiers"],
+    ),
     "C15": dict(
         components=[("producer", 2000, 50000)],
         trusted=["encoding/json: the harness parses every produced value with encoding/json and compares the tree shape; whether a payload is serialisable is an "
@@ -72,6 +81,16 @@ PROPS = {
         trusted=RECOVERY_TRUST + ["a successor's tracker is rebuilt in the harness by replaying the recorded message log into a fresh instance; "
                                   "the model keeps the tracker across 'crash' (justified by C08.snapshot_replication)"],
         assumptions=["same as C07"],
+    ),
+    "C19": dict(
+        components=[("ratelimit", 0, 25), ("recovery", 400, 20000)],
+        seed_offset=15485863,
+        shrink=False,
+        trusted=["golang.org/x/time/rate: the token-bucket contract (a Wait returns no earlier than the bucket can grant a token) is assumed; the theorems derive the rate bound from it",
+                 "wall-clock measurement of the real code with the really-constructed limiter (NewRecoveryConsumer, then the Kafka client is swapped by a hook): "
+                 "elapsed >= 0.9 * (n - 100) / rate, a lower bound on time that machine load can only make easier to meet",
+                 "extractor (go/ast) for the regenerated facts: limiter construction and every mention of it, shape of recoverSingleEvent and of the main processEvent"],
+        assumptions=["rates 50..5000/s, 1..4 partitions recovering at once; events per second are measured, not proved (runtime part of the property)"],
     ),
     "C20": dict(
         components=[("params", 5000, 200000)],
